@@ -8,8 +8,16 @@ pub fn build_sysv(enc: Enc, names: &[Vec<u8>], nbucket: u32) -> Vec<u8> {
     let nchain = names.len() as u32;
     let mut bucket = vec![0u32; nbucket as usize];
     let mut chain = vec![0u32; nchain as usize];
-    // insert in reverse so that chains run in increasing symbol order (as ld does)
-    for i in (1..names.len()).rev() {
+    // the gABI does not fix the order in which a chain visits its symbols: increasing index (ld prepends while walking
+    // the symbols backwards), decreasing, or any other order (derived from the names, so a table is reproducible)
+    let mut order: Vec<usize> = (1..names.len()).collect();
+    let digest = names.iter().fold(0xcbf29ce484222325u64, |h, n| crate::rng::mix(h, crate::rng::fnv64(n)));
+    match digest % 3 {
+        0 => order.reverse(),
+        1 => {}
+        _ => order.sort_by_key(|i| crate::rng::mix(digest, *i as u64)),
+    }
+    for i in order {
         let b = (ref_sysv_hash(&names[i]) % nbucket) as usize;
         chain[i] = bucket[b];
         bucket[b] = i as u32;
